@@ -392,7 +392,7 @@ theorem irun_IsOpen_apply (s : Shared) (tid : Nat) (sc : Script) (obs : Int) (en
   simp only [go_IsOpen]
   irun_eval []
 
-/-- `openCircuit` against the model's transition `open`, for every continuation -/
+/-- `openCircuit` against the model's transition `open`, for every continuation (each override flag loaded once) -/
 theorem irun_seg_openCircuit {β : Type} (Φ : Out β × irun_G → SoloSt Shared Local Lab → Prop) (K : Out Unit × irun_G → Out β × irun_G)
     (s : Shared) (tid : Nat) (sc : Script) (obs : Int) (envs : List (Shared → Shared)) (tr : List Lab) (d : List String)
     (job : Job) (so : Option Bool) (after : Res) (ctx : Ctx) (now : Int) (n : Nat) (hn : 9 ≤ n)
@@ -403,11 +403,11 @@ theorem irun_seg_openCircuit {β : Type} (Φ : Out β × irun_G → SoloSt Share
       (solo sys view tid n ⟨s, ⟨job, .trans { job := .open, pc := .start } after, so⟩, envs, tr⟩) := by
   obtain ⟨k, rfl⟩ : ∃ k, n = k + 9 := ⟨n - 9, by omega⟩
   simp only [go_openCircuit]
-  irun_eval [irun_IsOpen_apply, ↓irun_hold_fin]
+  irun_eval [↓irun_hold_fin]
   irun_walk
   all_goals first | exact hok _ _ _ _ (by omega) | exact hnil _ _ _ _ _ _
 
-/-- `close` against the model's transition `close`, for every continuation -/
+/-- `close` against the model's transition `close`, for every continuation (each override flag loaded once) -/
 theorem irun_seg_close {β : Type} (Φ : Out β × irun_G → SoloSt Shared Local Lab → Prop) (K : Out Unit × irun_G → Out β × irun_G)
     (s : Shared) (tid : Nat) (sc : Script) (obs : Int) (envs : List (Shared → Shared)) (tr : List Lab) (d : List String)
     (job : Job) (so : Option Bool) (after : Res) (ctx : Ctx) (now : Int) (force a : Bool) (ha : force = false → a = sc.shouldClose)
@@ -422,11 +422,11 @@ theorem irun_seg_close {β : Type} (Φ : Out β × irun_G → SoloSt Shared Loca
   cases force
   · obtain rfl := ha rfl
     cases hsc : sc.shouldClose <;>
-    · irun_eval [irun_IsOpen_apply, ↓irun_hold_fin, hsc]
+    · irun_eval [↓irun_hold_fin, hsc]
       irun_walk
       all_goals first | exact hok _ _ _ _ (by omega) | exact hnil _ _ _ _ _ _
   · cases a <;>
-    · irun_eval [irun_IsOpen_apply, ↓irun_hold_fin]
+    · irun_eval [↓irun_hold_fin]
       irun_walk
       all_goals first | exact hok _ _ _ _ (by omega) | exact hnil _ _ _ _ _ _
 
